@@ -1,0 +1,128 @@
+//! Verification hooks (cargo feature `verif`, off by default).
+//!
+//! Read-only views of the built-in tables, and a thread-local event sink
+//! that records which operator functions ran during an `apply`.
+//! Nothing in here changes the behaviour of the library.
+
+use crate::authoring::*;
+use std::cell::RefCell;
+
+/// Names of all built-in operators, in table order
+pub fn builtin_operator_names() -> Vec<&'static str> {
+    crate::inner_op::verif_builtin_gamuts()
+        .into_iter()
+        .map(|x| x.0)
+        .collect()
+}
+
+/// The gamut (accepted parameters) of a built-in operator
+pub fn gamut(name: &str) -> Option<Vec<OpParameter>> {
+    crate::inner_op::verif_builtin_gamuts()
+        .into_iter()
+        .find(|x| x.0 == name)
+        .map(|x| x.1)
+}
+
+/// The raw built-in ellipsoid table: (name, a, a-or-ay, rf, description)
+pub fn ellipsoid_table() -> Vec<(
+    &'static str,
+    &'static str,
+    &'static str,
+    &'static str,
+    &'static str,
+)> {
+    crate::ellipsoid::verif_ellipsoid_table()
+}
+
+/// The unit tables of `unitconvert`: (linear, angular), each entry (name, multiplier)
+#[allow(clippy::type_complexity)]
+pub fn unit_tables() -> (Vec<(&'static str, f64)>, Vec<(&'static str, f64)>) {
+    crate::inner_op::verif_unit_tables()
+}
+
+/// One observation from inside `Op::apply` or the pipeline step loops
+#[derive(Debug, Clone, PartialEq)]
+pub enum Event {
+    /// An operator was applied: `ran_fwd` tells which of its two inner functions ran
+    Apply {
+        definition: String,
+        name: String,
+        inverted: bool,
+        requested_fwd: bool,
+        ran_fwd: bool,
+        len: usize,
+        count: usize,
+    },
+    /// A pipeline step was visited (executed or skipped)
+    Step {
+        forward: bool,
+        definition: String,
+        name: String,
+        skipped: bool,
+        count: usize,
+        stack_depth: usize,
+    },
+}
+
+thread_local! {
+    static SINK: RefCell<Option<Vec<Event>>> = const { RefCell::new(None) };
+}
+
+/// Start recording events on this thread (discarding any earlier recording)
+pub fn trace_start() {
+    SINK.with(|s| *s.borrow_mut() = Some(Vec::new()));
+}
+
+/// Stop recording and return what was recorded
+pub fn trace_take() -> Vec<Event> {
+    SINK.with(|s| s.borrow_mut().take().unwrap_or_default())
+}
+
+/// Is a recording in progress on this thread?
+pub fn tracing() -> bool {
+    SINK.with(|s| s.borrow().is_some())
+}
+
+pub(crate) fn emit(event: Event) {
+    SINK.with(|s| {
+        if let Some(v) = s.borrow_mut().as_mut() {
+            v.push(event);
+        }
+    });
+}
+
+pub(crate) fn traced_apply(
+    op: &Op,
+    ctx: &dyn Context,
+    operands: &mut dyn CoordinateSet,
+    forward: bool,
+) -> usize {
+    let ran_fwd = op.descriptor.inverted != forward;
+    let len = operands.len();
+    let count = if ran_fwd {
+        op.descriptor.fwd.0(op, ctx, operands)
+    } else {
+        op.descriptor.inv.0(op, ctx, operands)
+    };
+    emit(Event::Apply {
+        definition: op.descriptor.definition.clone(),
+        name: op.params.name.clone(),
+        inverted: op.descriptor.inverted,
+        requested_fwd: forward,
+        ran_fwd,
+        len,
+        count,
+    });
+    count
+}
+
+pub(crate) fn step_event(forward: bool, step: &Op, skipped: bool, count: usize, stack: usize) {
+    emit(Event::Step {
+        forward,
+        definition: step.descriptor.definition.clone(),
+        name: step.params.name.clone(),
+        skipped,
+        count,
+        stack_depth: stack,
+    });
+}
